@@ -4,7 +4,7 @@ import os
 from common import *  # noqa
 import dbtie
 
-PROFILE = {'scenario_pref': ['noop_match', 'big_ints', 'one_us_late', 'one_us_late', 'noop_compose', 'range_ends', 'epoch', 'sparse_write', 'nan_fields', 'future_untimed', 'fold_twins', 'same_count', 'ooo_batch', 'bad_batch', 'ooo_then_remove', 'hash_twins', 'reset_then_time'], 'p_write': 0.6}
+PROFILE = {'scenario_also': ['front_rows_removed'], 'scenario_pref': ['noop_match', 'big_ints', 'one_us_late', 'one_us_late', 'noop_compose', 'range_ends', 'epoch', 'sparse_write', 'nan_fields', 'future_untimed', 'fold_twins', 'same_count', 'ooo_batch', 'bad_batch', 'ooo_then_remove', 'hash_twins', 'reset_then_time'], 'p_write': 0.6}
 
 
 def enumerated(depth, alphabet_size=None):
